@@ -98,6 +98,7 @@ def replay_native(modname, cname, pidx, inputs, timeout=300, env=None):
     e = dict(os.environ)
     e["PYTHONPATH"] = VERIF
     e["PYTHONDONTWRITEBYTECODE"] = "1"
+    e["PYTHONHASHSEED"] = "0"          # same set/dict iteration order as the exploring process
     if env:
         e.update(env)
     try:
